@@ -8,7 +8,8 @@ TRANSLATORS = ["error_codes", "sniff"]
 MODELS = ["server"]
 BINS = {"release": ["srvmsg"]}
 RULE = ("cases = (transport, message bytes) delivered as ONE message to a real jsonrpsee server -- HTTP socket-free through "
-        "ServerBuilder::to_service_builder().build(methods, stop).call(POST application/json), WebSocket over 127.0.0.1:0 with a "
+        "ServerBuilder::to_service_builder().build(methods, stop).call(POST application/json; body as one frame with exact size hint, "
+        "a sample again with an explicit Content-Length and as 1..3 frames of unknown total length = chunked), WebSocket over 127.0.0.1:0 with a "
         "raw soketto client (text frames, binary frames for non-UTF-8 bytes), all frames collected until the connection is quiet "
         "(barrier round-trips + silence window) -- and to the extracted Coq model (Model/Server.v `handle`) under the same "
         "registry (sync/async/blocking/panicking-blocking/subscription/unsubscription handlers, results a function of method and "
@@ -163,6 +164,11 @@ def run(ctx):
     msgs = gen_messages(ctx)
     n_ws = ctx.scale(4000, 60000)
     cases = [("http", "u", m, tag) for m, tag in msgs]
+    # the same message with the other HTTP framings: explicit Content-Length, and a body of unknown length in several frames
+    # (chunked / HTTP/2 without Content-Length): the reply must not depend on how the body is framed
+    for i in rng.sample(range(len(msgs)), min(ctx.scale(3000, 40000), len(msgs))):
+        m, tag = msgs[i]
+        cases.append((rng.choice(["httpc", "httpc", "httpl"]), "u", m, tag))
     ws_pick = rng.sample(range(len(msgs)), min(n_ws, len(msgs)))
     for i in ws_pick:
         m, tag = msgs[i]
@@ -171,8 +177,8 @@ def run(ctx):
     res = S.run_engine(ctx, [(t, c, m) for t, c, m, _ in cases])
     by_msg = {}
     for (t, c, m, tag), (a, b) in zip(cases, res):
-        tr = "http" if t == "http" else "ws"
-        ctx.count(tr)
+        tr = "http" if t.startswith("http") else "ws"
+        ctx.count(tr if t in ("http", "ws", "wsb") else t)
         ctx.count("gen:" + tag)
         case = {"transport": t, "cfg": c, "msg_hex": m.hex(), "msg": S.show(m), "tag": tag}
         o = S.parse_out(a)
@@ -185,6 +191,12 @@ def run(ctx):
         ctx.count("class:" + str(cls))
         trivial = S.replies_of(tr, o) == [PARSE_ERR]
         ctx.record({"transport": t, "msg": S.show(m)}, a, nontrivial=not trivial)
+        if t in ("httpc", "httpl"):
+            ref = by_msg.get(m, {}).get("http")
+            if ref is not None and (ref[0]["status"], ref[0]["frames"], ref[0]["log"]) != (o["status"], o["frames"], o["log"]):
+                ctx.fail("oracle", "http-framing-changes-answer", case,
+                         {"plain": [ref[0]["status"]] + [f.decode("latin1") for f in ref[0]["frames"]], t: [o["status"]] + [f.decode("latin1") for f in o["frames"]]})
+            continue
         by_msg.setdefault(m, {})[tr] = (o, cls)
     # WS and HTTP give the same response object (non-subscription methods)
     for m, d in by_msg.items():
